@@ -18,6 +18,7 @@ contract("gherkin.token.Token.__init__", inline=True, args=dict())
 # unchanged tree exactly for texts with path_exists(text), and is listed in known_findings.json by its name.
 contract("gherkin.token_scanner.TokenScanner.__init__",
          args=dict(self=Raw("TokenScanner"), path_or_str=Str), returns=NoneT, modifies=["self.*"],
+         standin="documents::",
          ensures=[
              clause("counter", lambda self: self.line_number == 0 and self.io.pos == 0, serves=["C04", "C18"]),
              clause("text-unless-path", lambda self, path_or_str: implies(
@@ -35,6 +36,7 @@ contract("gherkin.token_scanner.TokenScanner.__init__",
 # and an EOF token (line == "") with the next line number for ever after.
 contract("gherkin.token_scanner.TokenScanner.read",
          args=dict(self="TokenScanner"), returns="Token", modifies=["self.line_number", "self.io.pos"],
+         standin="documents::",
          ensures=[
              clause("counter", lambda self, result: self.line_number == old(self.line_number) + 1
                     and result.location["line"] == self.line_number and "column" not in result.location,
